@@ -462,3 +462,20 @@ package types
 //@   trusted "callback-taking container method (generic callback results are not modelled); the splice it performs is proved on (*Slice).splice"
 //@   requires s != nil
 //@   modifies *
+
+// the wrapper completes the caller's own policy object with defaults (or uses the shared default policy read-only when none
+// is given): the shared default is never written, so one server's policy cannot leak into another's
+//@ func MiddlewareWrapper(options)
+//@   props C17
+//@   modifies options.Origin, options.Methods, options.OptionsSuccessStatus
+//@   ensures [C17.wrap.defaults] options != nil ==> options.Origin != nil && options.Methods != nil && options.OptionsSuccessStatus != 0
+//@   ensures [C17.wrap.kept]     options != nil && old(options.Origin) != nil ==> options.Origin == old(options.Origin)
+//@   ensures [C17.wrap.status]   options != nil && old(options.OptionsSuccessStatus) != 0 ==> options.OptionsSuccessStatus == old(options.OptionsSuccessStatus)
+//@   ensures [C17.wrap.fn]       result != nil
+//@ func MiddlewareWrapper$1(ctx, next)
+//@   props C17
+//@   requires options != nil && ctxOK(ctx) && next != nil
+//@   dyncall next noeffect
+//@   modifies *
+//@   ensures [C17.wrap.policy] old(options.Origin) != nil ==> calls(CorsMiddleware) == 1 && arg(CorsMiddleware, 1, options) == options && arg(CorsMiddleware, 1, ctx) == ctx
+//@   ensures [C17.wrap.off]    old(options.Origin) == nil ==> calls(CorsMiddleware) == 0 && calls(next) == 1
